@@ -4,18 +4,21 @@ Contracts (all evaluated on the real `ttconv.tt.main`, the real configuration cl
 fresh interpreters):
 
   cli==composition            bytes written by tt.main([...]) == specs.ttcli.compose(...) for every (input format, output format)
-                              pair x type-selection variants x configurations x filter lists
+                              pair x type-selection variants (extension / --itype / --otype, any case, option over extension)
+                              x every documented value of the reader / writer / filter configuration in use; malformed inputs:
+                              the command fails iff the library composition fails
   config-file-precedence      --config_file wins over --config
-  document_lang               general.document_lang overrides the language of the document
-  filters-in-order            named document filters run in command-line order with their own configuration section
+  document_lang               general.document_lang overrides the language of the document (and is applied before the filters)
+  filters-in-order            named document filters run in command-line order, each with its own configuration section
   errors-leave-no-file        unsupported types / unknown sub-commands: error status and no output file
-  config-parse                ModuleConfiguration.parse of every documented module: documented values accepted and decoded to
-                              the documented meaning, others rejected
-  config-reject-cli           an undocumented value of a module in use makes the command fail
-  progress-display            the progress bar is displayed iff progress_bar is true and log_level is INFO
+  config-parse                tt.read_config_from_json / ModuleConfiguration.parse of every documented module over value tables:
+                              documented values accepted and decoded to the documented meaning, others rejected; `general`
+                              (no decoders) is judged on the command line, incl. "progress bar displayed iff progress_bar is
+                              true and log_level is INFO"
+  config-reject-cli           an undocumented value of a module in use makes the command fail (or is read as a value it can stand for)
   deterministic-hashseed      same bytes in fresh interpreters under several PYTHONHASHSEED values
-  log-settings-independent    same bytes whatever general.progress_bar / general.log_level
-  history-independent         same bytes whatever was converted before in the same interpreter
+  log-settings-independent    same bytes whatever general.progress_bar / general.log_level (nothing silenced)
+  history-independent         same bytes whatever was converted (or failed) before in the same interpreter
   real-command-line           `python -m ttconv.tt` and the `tt` script: same bytes, exit status
 
 Run:  PYTHONPATH=/verif /venv/bin/python -m rtc.c19 --tier quick --seed 0 --out /tmp/x.json
@@ -34,9 +37,8 @@ import subprocess
 import sys
 import tempfile
 from dataclasses import dataclass
-from fractions import Fraction
 
-from rtc.common import Recorder, parse_args, rng, parallel
+from rtc.common import Recorder, parse_args, rng
 from specs import ttcli as S
 
 REPO = os.environ.get("TTCONV_REPO", "/repo")
